@@ -4,6 +4,8 @@ from fractions import Fraction
 
 from hypothesis import strategies as st
 
+from cobald.decorator.coarser import Coarser
+from cobald.decorator.limiter import Limiter
 from cobald.decorator.standardiser import Standardiser
 
 from vlib.core import Result, TestDef
@@ -51,7 +53,8 @@ def params(draw):
     )
     surplus = draw(st.one_of(st.just(INF), positive_number(60)))
     backlog = draw(st.one_of(st.just(INF), positive_number(60)))
-    return {"min": minimum, "max": maximum, "gran": gran, "surplus": surplus, "backlog": backlog}
+    return {"min": minimum, "max": maximum, "gran": gran, "surplus": surplus, "backlog": backlog,
+            "alias": draw(st.sampled_from([None, None, "limiter", "coarser"]))}
 
 
 def vspec():
@@ -227,8 +230,10 @@ def check_write(res, m: Model, v, supply, T, R, p, tag):
 
 def build(p):
     pool = StatePool(demand=p["demand0"], supply=p["supply"], utilisation=0.5, allocation=0.75)
-    std = Standardiser(pool, minimum=p["min"], maximum=p["max"], granularity=p["gran"],
-                       backlog=p["backlog"], surplus=p["surplus"])
+    # the decorator is shipped under three names (Standardiser and its aliases Limiter / Coarser)
+    cls = {"limiter": Limiter, "coarser": Coarser}.get(p.get("alias"), Standardiser)
+    std = cls(pool, minimum=p["min"], maximum=p["max"], granularity=p["gran"],
+              backlog=p["backlog"], surplus=p["surplus"])
     return pool, std
 
 
